@@ -93,6 +93,9 @@ pub struct CScript {
     pub ttl: Option<String>,
     pub invalid: bool,
     pub uses_env: bool,
+    /// the first output value reports which contexts `.cat` shows inside the command
+    #[serde(default)]
+    pub cat_probe: bool,
 }
 
 #[derive(Serialize, Deserialize, Clone, Debug, PartialEq)]
@@ -264,7 +267,10 @@ pub fn cmd_script(name: &str, c: &CScript) -> String {
     if c.explicit_append {
         out.push_str(&format!("    \"side\" | .append {}.side --meta {{note: \"x\"}}\n", name));
     }
-    let items: Vec<String> = c.outputs.iter().enumerate().map(|(i, r)| ret_literal(r, i).0).collect();
+    let mut items: Vec<String> = c.outputs.iter().enumerate().map(|(i, r)| ret_literal(r, i).0).collect();
+    if c.cat_probe {
+        items.insert(0, "(.cat | each {|f| $f.context_id} | uniq | sort | str join \",\")".to_string());
+    }
     match c.fail_at {
         Some(p) => {
             out.push_str(&format!("    let items = [{}]\n", items.join(" ")));
@@ -1481,7 +1487,10 @@ impl Run {
                 return violation("cmd/explicit-append", format!("{}: the script's .append ran {} times", desc, sides));
             }
             let mut want: Vec<serde_json::Value> = def.cmd.outputs.iter().enumerate().map(|(i, r)| ret_literal(r, i).1).collect();
-            if def.cmd.outputs.len() == 1 && def.cmd.outputs[0] == Ret::List && def.cmd.fail_at.is_none() {
+            if def.cmd.cat_probe {
+                want.insert(0, serde_json::json!(call.ctx.to_string()));
+            }
+            if def.cmd.outputs.len() == 1 && def.cmd.outputs[0] == Ret::List && def.cmd.fail_at.is_none() && !def.cmd.cat_probe {
                 // a closure whose value is a list yields its elements
                 want = want[0].as_array().cloned().unwrap_or_default();
             }
@@ -1501,6 +1510,9 @@ impl Run {
                         return violation("cmd/unexpected-error", format!("{}: a correct script ended with {}.error", desc, call.name));
                     }
                     if got != want {
+                        if def.cmd.cat_probe && got.first() != want.first() && got.len() == want.len() {
+                            return violation("ctx/leak:nu-cat", format!("{}: `.cat` inside the command showed contexts {:?}, the caller's context is {}", desc, got.first(), short_ctx(&call.ctx)));
+                        }
                         return violation("cmd/output", format!("{}: results {:?} but the closure yields {:?}", desc, got, want));
                     }
                 }
@@ -1684,6 +1696,7 @@ pub fn generate(seed: u64, prop: &str, thorough: bool) -> Plan {
                             ttl: if rng.chance(25) { Some(rng.pick(&["head:2", "time:60000"]).to_string()) } else { None },
                             invalid: rng.chance(12),
                             uses_env: true,
+                            cat_probe: no > 0 && rng.chance(25),
                         }
                     },
                 },
